@@ -134,7 +134,7 @@ def run(ctx: Ctx):
         if rng.random() < 0.1:
             nodes = rules.rand_tree(rng, rules.LARGE_POOL, max_nodes=40, max_depth=7)      # many modules, deep chains, numbered / non-ASCII / long names
         else:
-            nodes = rules.rand_tree(rng, rng.choice((rules.COLLISION_FREE, rules.ADVERSARIAL, SELF_SIMILAR, SELF_SIMILAR)), max_nodes=rng.choice([4, 8, 12]))
+            nodes = rules.rand_tree(rng, rng.choice((rules.COLLISION_FREE, rules.ADVERSARIAL, SELF_SIMILAR, SELF_SIMILAR, rules.UNICODE_POOL)), max_nodes=rng.choice([4, 8, 12]))
         edges = rules.rand_edges(rng, nodes, 5)
         aliases = gen_aliases(rng, nodes) if rng.random() < 0.85 else None
         if aliases is not None and rng.random() < 0.08:
